@@ -20,7 +20,7 @@ thread_local! {
     static UNDECODABLE: RefCell<Vec<f64>> = RefCell::new(Vec::new());
     static AMBIGUOUS: Cell<u64> = Cell::new(0);
     static TOL_DECODED: Cell<u64> = Cell::new(0);
-    static RATIONALS: Cell<u64> = Cell::new(0);
+    static LITERAL: Cell<u64> = Cell::new(0);
 }
 
 #[derive(Copy, Clone, Debug, PartialEq, Eq)]
@@ -192,6 +192,7 @@ pub fn reset_counters() {
     UNDECODABLE.with(|c| c.borrow_mut().clear());
     AMBIGUOUS.with(|c| c.set(0));
     TOL_DECODED.with(|c| c.set(0));
+    LITERAL.with(|c| c.set(0));
 }
 pub fn divs() -> u64 {
     DIVS.with(|c| c.get())
@@ -204,6 +205,9 @@ pub fn undecodable() -> Vec<f64> {
 }
 pub fn ambiguous() -> u64 {
     AMBIGUOUS.with(|c| c.get())
+}
+pub fn literal_decoded() -> u64 {
+    LITERAL.with(|c| c.get())
 }
 pub fn tolerance_decoded() -> u64 {
     TOL_DECODED.with(|c| c.get())
@@ -257,48 +261,6 @@ fn decode(x: f64) -> Fp {
                 }
             }
         }
-        // small rationals a/b converted from f64 (e.g. 1/m scale factors): continued-fraction reconstruction,
-        // accepted only when it reproduces x to within 2 ulp with a denominator <= 2^22
-        if x.is_finite() && x.abs() > 1e-9 && x.abs() < 1e9 {
-            let ax = x.abs();
-            let (mut h0, mut h1, mut k0, mut k1) = (0u64, 1u64, 1u64, 0u64);
-            let mut y = ax;
-            for _ in 0..40 {
-                let a = y.floor();
-                if a > 1e12 {
-                    break;
-                }
-                let a = a as u64;
-                let h2 = a.saturating_mul(h1).saturating_add(h0);
-                let k2 = a.saturating_mul(k1).saturating_add(k0);
-                if k2 > (1 << 22) || h2 > (1 << 40) {
-                    break;
-                }
-                h0 = h1;
-                h1 = h2;
-                k0 = k1;
-                k1 = k2;
-                let approx = h1 as f64 / k1 as f64;
-                if (approx - ax).abs() <= 2.0 * f64::EPSILON * ax && k1 > 1 && k1 % pr != 0 {
-                    RATIONALS.with(|c| c.set(c.get() + 1));
-                    let mut v = mulmod(h1 % pr, powmod(k1 % pr, pr - 2, pr), pr);
-                    if x < 0.0 {
-                        v = (pr - v) % pr;
-                    }
-                    // a grid value this close would have been found in the table; make sure no grid value is near
-                    let lo = f.sorted.partition_point(|e| e.0 < x - 1e-12);
-                    if f.sorted[lo..].iter().take_while(|e| e.0 <= x + 1e-12).next().is_none() {
-                        return Ok(v);
-                    }
-                    break;
-                }
-                let frac = y - a as f64;
-                if frac < 1e-15 {
-                    break;
-                }
-                y = 1.0 / frac;
-            }
-        }
         // tolerance fallback (survives refactorings of the twiddle expression): every candidate within 1e-13 must agree
         let lo = f.sorted.partition_point(|e| e.0 < x - 1e-13);
         let mut found: Option<u64> = None;
@@ -312,10 +274,47 @@ fn decode(x: f64) -> Fp {
         match found {
             Some(v) => {
                 TOL_DECODED.with(|c| c.set(c.get() + 1));
-                Ok(v)
+                return Ok(v);
             }
-            None => Err(false),
+            None => {}
         }
+        if !x.is_finite() {
+            return Err(false);
+        }
+        // Is x a twiddle of a modulus this oracle was not told about? (cos/sin of 2*pi*j/d for some d <= 2^17.)
+        // Then the oracle's table is incomplete and the case is not judged.
+        if x.abs() <= 1.0 {
+            let a = x.acos() / (2.0 * std::f64::consts::PI); // fraction of a turn in [0, 0.5]
+            let b = x.asin() / (2.0 * std::f64::consts::PI);
+            for d in 1..=(1u64 << 17) {
+                let df = d as f64;
+                let j = (a * df).round();
+                if ((2.0 * std::f64::consts::PI * j / df).cos() - x).abs() < 1e-12 {
+                    return Err(false);
+                }
+                let j = (b * df).round();
+                if ((2.0 * std::f64::consts::PI * j / df).sin() - x).abs() < 1e-12 {
+                    return Err(false);
+                }
+            }
+        }
+        // Anything else is taken literally: an f64 IS a dyadic rational m*2^e, and that exact value is what an exact
+        // element type receives from `from_f64` when the constant is not a twiddle it can recognise.
+        let bits = x.to_bits();
+        let exp = ((bits >> 52) & 0x7ff) as i64;
+        let (mant, e) = if exp == 0 { (bits & ((1u64 << 52) - 1), -1074i64) } else { ((bits & ((1u64 << 52) - 1)) | (1u64 << 52), exp - 1075) };
+        let mut v = mant % pr;
+        if e >= 0 {
+            v = mulmod(v, powmod(2, e as u64, pr), pr);
+        } else {
+            let inv2 = (pr + 1) / 2;
+            v = mulmod(v, powmod(inv2, (-e) as u64, pr), pr);
+        }
+        if x < 0.0 {
+            v = (pr - v) % pr;
+        }
+        LITERAL.with(|c| c.set(c.get() + 1));
+        Ok(v)
     });
     match r {
         Ok(v) => Fp(v),
